@@ -86,6 +86,7 @@ struct Env {
     revoked_twin: String,
     root: PathBuf,
     gated: bool,
+    reloaded: bool,
     _keep: Vec<Box<dyn std::any::Any>>,
 }
 
@@ -205,6 +206,16 @@ fn build_env(cfg: &Config, work: &Path, gated: bool) -> Result<Env, String> {
         if store.validate_with_role(&expired).is_some() || store.validate_with_role(&revoked).is_some() {
             return Err("expired/revoked token still validates".into());
         }
+        // every other endpoint is one that was restarted after the credentials were issued and revoked: the store is
+        // read back from its file, as after a restart of the runtime; nothing is asserted here - the trials observe at
+        // the socket whether each credential is honoured
+        let store = if n % 2 == 1 {
+            drop(store);
+            let c3 = clock.clone();
+            Arc::new(PairingStore::with_clock(dir.join("pairing.json"), Arc::new(move || c3.load(Ordering::SeqCst))))
+        } else {
+            store
+        };
         (Some(store), tokens, expired, revoked, revoked_twin)
     } else {
         (None, BTreeMap::new(), "expired-none".to_string(), "revoked-none".to_string(), "revoked-twin-none".to_string())
@@ -235,7 +246,7 @@ fn build_env(cfg: &Config, work: &Path, gated: bool) -> Result<Env, String> {
     });
     let sock = dir.join("ctl.sock");
     ControlServer::start(ControlEndpoint::Unix(sock.clone()), state.clone()).map_err(|e| e.to_string())?;
-    Ok(Env { cfg: cfg.clone(), state, sock, conn: None, probe, commands, clock, tokens, expired, revoked, revoked_twin, root, gated, _keep: keep })
+    Ok(Env { cfg: cfg.clone(), state, sock, conn: None, probe, commands, clock, tokens, expired, revoked, revoked_twin, root, gated, reloaded: cfg.pairing && n % 2 == 1, _keep: keep })
 }
 
 impl Env {
@@ -680,6 +691,10 @@ pub fn run(sh: &mut Shard) {
                 if need_new {
                     match catch(|| build_env(&cfg, &work, gated)) {
                         Ok(Ok(e)) => {
+                            sh.count("endpoints_built", 1);
+                            if e.reloaded {
+                                sh.count("endpoints_with_pairing_store_read_back_from_file", 1);
+                            }
                             envs.insert(key, e);
                         }
                         Ok(Err(e)) => {
